@@ -32,6 +32,7 @@ type HarnessSpec struct {
 	ReplayTags  string
 	ReplayEnv   []string
 	PanicIsViolation bool
+	ReplayRepeat     int
 	Solver           string            // primary solver for this harness (default: the run's)
 	ModelOnlyLabels  map[string]string // assertion label -> why its counterexamples cannot be realised by the native harness
 }
